@@ -40,7 +40,7 @@ pub static DEF: PropertyDef = PropertyDef {
 };
 
 pub fn cli_bin() -> PathBuf {
-    std::env::var("VERIF_CLI_BIN").map(PathBuf::from).unwrap_or_else(|_| verif_dir().join("target/cli/release/rinklecate"))
+    std::env::var("VERIF_CLI_BIN").map(PathBuf::from).unwrap_or_else(|_| crate::engine::target_dir().join("cli/release/rinklecate"))
 }
 
 fn generate(_corpus: &Corpus, tier: Tier, run: u64, rng: &mut Rng) -> Option<Case> {
